@@ -246,6 +246,9 @@ func (s *genState) block(body func()) {
 		s.g.Emit("%s", l)
 	}
 	body()
+	if s.r.Chance(12) && !w.chg {
+		s.g.Emit("redo")
+	}
 	s.g.Emit("end %s", w.order())
 }
 
